@@ -565,6 +565,29 @@ func genCase(rng *rand.Rand, n int, seed int64, pf Profile) *CaseDesc {
 			break
 		}
 	}
+	// Reorder chains: now and then nobody receives error and every returner of error says that is fine
+	// (ConsumptionOptional); one of the fallible injectors is marked Reorder -- it must still be placed where it runs
+	if pf.PReorder > 0 && chance(rng, 0.15) {
+		noRecv := true
+		var fallible []*ProvDesc
+		for i, p := range c.Provs {
+			if p.Kind == "wrap" && contains(p.IOut, cError) {
+				noRecv = false
+			}
+			if p.Kind == "inj" && i != len(c.Provs)-1 && contains(p.Out, cTE) && !p.Cacheable {
+				fallible = append(fallible, p)
+			}
+		}
+		if noRecv && len(fallible) > 0 {
+			for i, p := range c.Provs {
+				if (p.Kind == "inj" && i != len(c.Provs)-1 && contains(p.Out, cTE)) || ((p.Kind == "wrap" || i == len(c.Provs)-1) && contains(p.Out, cError)) {
+					p.ConsOpt = uniq(append(p.ConsOpt, cError))
+				}
+			}
+			c.InvOut = remove(c.InvOut, cError)
+			fallible[rng.Intn(len(fallible))].Reorder = true
+		}
+	}
 	rng.Shuffle(len(c.InvOut), func(i, j int) { c.InvOut[i], c.InvOut[j] = c.InvOut[j], c.InvOut[i] })
 	if c.HasInit {
 		if chance(rng, 0.5) && len(staticAvail) > 0 {
